@@ -53,8 +53,9 @@ def classify_case(m, c):
         bo, io = mk("block-only")(d), mk("inline-only")(d)
     except Exception:  # noqa
         return None
-    before_par = {"table", "def_list", "abbr"} & set(c["plugins"])
-    if bo != wo and io == wo and before_par:
+    # mechanism of the known finding: a pipe-less table whose header line begins with a letter, directly below a paragraph line
+    # (the fast paragraph rule takes every run of letter-initial lines): the table is lost
+    if bo != wo and io == wo and "table" in c["plugins"] and wo.count("<table") > bo.count("<table"):
         return "speedup-paragraph-swallows-plugin-block"
     if io != wo and bo == wo and not c["escape"] and "&" in d:
         return "noescape-entity-split"
@@ -128,7 +129,7 @@ def oracle(ctx, extra):
         elif k < 0.6:
             doc = gen_docs.interaction_doc(r)
         elif k < 0.7:
-            doc = gen_docs.wrapped_doc(r) if r.random() < 0.7 else gen_docs.tab_doc(r)
+            doc = r.choice([gen_docs.wrapped_doc, gen_docs.wrapped_doc, gen_docs.tab_doc, gen_docs.long_run_doc])(r)
         elif k < 0.85:
             # dense in stop characters, white space and breaks
             doc = "".join(r.choice(["a", "b ", " ", "  ", "\n", "  \n", "\\\n", "\t", "*", "_", "`", "[", "]", "<", ">", "!", "~", "^", "$", "=",
@@ -137,7 +138,9 @@ def oracle(ctx, extra):
         else:
             doc = gen_docs.noise(r)
         cfg_k = r.random()
-        plugins = [] if cfg_k < 0.25 else (["strikethrough", "footnotes", "table"] if cfg_k < 0.4 else r.sample(P, r.randint(1, 8)))
+        if 0.6 <= k < 0.7 and cfg_k < 0.6:
+            cfg_k = 0.99        # (documents made of plugin constructs are mostly converted with plugins loaded)
+        plugins = [] if cfg_k < 0.25 else (["strikethrough", "footnotes", "table"] if cfg_k < 0.4 else (r.sample(P, r.randint(1, 8)) if cfg_k < 0.95 else r.sample(P, len(P))))
         if i % 16 == 9:
             # a table of contents (directive) over headings of every form: the entries are rendered from the heading tokens
             style = r.choice(["fenced", "rst"])
@@ -157,7 +160,7 @@ def oracle(ctx, extra):
     fails = [f for f in fails if not f.get("class")] + known[:4]
     return {"evaluations": n, "distinct_nontrivial": len(seen), "failures": fails, "known_finding_instances": len(known),
             "known_by_class": {k: sum(1 for f in known if f["class"] == k) for k in {f["class"] for f in known}},
-            "rule": "documents: 50% generated with all plugin syntaxes, 10% interrupt/lazy fragments, 10% wrapped paragraphs (continuation lines indented by 0-5 spaces or tabs, inline constructs straddling the line break) and tab-indented containers, 15% strings dense in stop "
+            "rule": "documents: 50% generated with all plugin syntaxes, 10% interrupt/lazy fragments, 10% wrapped paragraphs (continuation lines indented by 0-5 spaces or tabs, inline constructs straddling the line break), tab-indented containers and constructs whose repeatable part is repeated 9-129 times, 15% strings dense in stop "
                     "characters / white space / hard and soft breaks / URLs / entities, 15% noise; every 8th a showcase of one plugin's constructs with that plugin enabled (abbreviations with multi-word, prefix and stop-character keys, uses wrapped over two lines), every 16th a table-of-contents directive over headings of every form (also setext headings that span two lines); configurations: core (25%), "
                     "mistune.html's own set (15%), 1-8 random plugins; hard_wrap 35%, escape=False 25%; HTML compared with "
                     "plugins=P vs P+['speedup']; a difference is shrunk by delta debugging and classified by re-running with "
